@@ -142,8 +142,13 @@ func Run(a common.Args) {
 	}
 	// directed scenarios (after the random traces, so that their ids do not move the random ones): the
 	// histories behind the suspected defects DESIGN §7 #18 and #6 and the repeated kill, played to the end
-	if extraInt(a.Extra, "scen", 0) > 0 {
-		for k := 1; k <= 3; k++ {
+	{
+		// scenario 4 always runs; scenarios 1-3 with scen=1
+		ks := []int{4}
+		if extraInt(a.Extra, "scen", 0) > 0 {
+			ks = []int{1, 2, 3, 4}
+		}
+		for _, k := range ks {
 			id++
 			if a.Only != 0 && a.Only != id {
 				rc.TraceID = id
